@@ -238,3 +238,6 @@ def run(ctx):
     common.merge_shards(ctx, results)
     if ctx.counters.get('real_steps_judged', 0) < 50:
         ctx.inconclusive_because('too few accepted steps of real runs judged')
+    if ctx.counters.get('candidates_compared_with_designated_place', 0) < 100:
+        ctx.inconclusive_because('the monitor in the workers compared too '
+                                 'few candidates with their designated place')
